@@ -19,6 +19,13 @@ void c05_merged(int simd, int v2, int cs, u8 *y0, u8 *y1, u8 *cb, u8 *cr, u8 *ou
 void c05_down(int simd, int v2, unsigned image_width, unsigned width_in_blocks, u8 *row0, u8 *row1, u8 *out);
 void c05_fancy(int simd, int v2, unsigned w, u8 *above, u8 *cur, u8 *below, u8 *out0, u8 *out1);
 void c05_plain(int simd, int v2, unsigned outw, u8 *in, u8 *out0, u8 *out1);
+/* whole row groups: max_v = max_v_samp_factor (upsampling) / vs = v_samp_factor (downsampling) rows per call.
+   fancy: in[-1] and in[n] (context rows) must be valid pointers */
+void c05_down_rows(int simd, int v2, unsigned image_width, unsigned width_in_blocks, int vs, u8 **in, u8 **out);
+void c05_fancy_rows(int simd, int v2, unsigned w, int max_v, u8 **in, u8 **out);
+void c05_plain_rows(int simd, int v2, unsigned outw, int max_v, u8 **in, u8 **out);
+void c05_rgb_ycc_rows(int simd, int cs, u8 **rgb, u8 **y, u8 **cb, u8 **cr, unsigned width, int nrows, int gray);
+void c05_ycc_rgb_rows(int simd, int cs, u8 **y, u8 **cb, u8 **cr, u8 **rgb, unsigned width, int nrows);
 /* quantisation: divisors table built by the real compute_reciprocal for all 64 positions */
 int c05_recip(unsigned divisor, short *dtbl256, int pos);
 void c05_quant(int simd, short *coef, short *divisors, short *workspace);
